@@ -6,10 +6,14 @@ E2 (well-formed programs).  Every block-structured program (AST from `refmodels/
     rendered to DIP text, parsed by the library and compared with the reference clause semantics that interprets
     the *AST* (never the text): exact `env.data()` (names and values) and exact `env.data(tags=["t"])`.
 E1 (misplaced keywords).  Explicit-state search over flat line sequences from
-    {node, @case true, @case false, @else, @end} x indent {0,1,2}: unpruned DFS to depth D (every sequence whose
-    prefixes are all accepted and defined), then BFS pruned on (canonical implementation state, reference state)
-    to depth DMAX.  The reference automaton classifies each sequence as well-formed (set of node lines in effect is
-    compared), must-raise (misplaced @else/@end at a position that is in effect) or undefined (not compared).
+    {node, @case true, @case false, @else, @end} x indent {0,1,2} up to depth D, *unpruned*: a sequence is executed
+    iff every proper prefix was accepted by the library and called well-formed by the reference (a failing or
+    undefined prefix has no successors).  The reference automaton (keyword indentation identifies the block)
+    classifies each sequence as well-formed (the set of node lines in effect is compared), must-raise (misplaced
+    @else/@end at a position that is itself in effect) or undefined (executed, not compared).  `states` counts the
+    distinct (implementation state, reference state) pairs reached; it is reported, not used for pruning.
+The two references are written independently (AST interpreter / indentation automaton); every E2 program is also
+read by the automaton and a disagreement between the two is a harness error.
 
 Not demanded (left out of the alphabets / not compared):
   * `@case` after `@else` of the same block ("@else is at the very end"; the statement does not say it must fail);
@@ -17,7 +21,8 @@ Not demanded (left out of the alphabets / not compared):
     validated) - executed, counted, never compared, never extended;
   * names produced by oddly indented flat sequences (E1 compares only *which* node lines took effect; naming is C13);
   * modifications of nodes that are not certainly defined, typed re-definitions, property lines after anything but
-    the first definition of a node (other properties' subjects);
+    the first definition of a node, reference-valued definitions in programs that modify the referenced node
+    (subjects of C14/C17);
   * compact clause names (`group.@case`), tabs, indentation widths other than two blanks (C13).
 """
 import re
@@ -38,10 +43,9 @@ RULE = ("E2: one case = one distinct AST (distinct ASTs render to distinct texts
 ASSUMPTIONS = [
     "the reference interprets the generator's AST by the statement (first true @case, else @else; effect iff all "
     "enclosing clauses selected); expression conditions read node v1 whose reference value follows the same rule",
-    "E1 pruning: two histories are merged only if BranchingList.state with all fields of the open Branch records "
-    "and their Case truth values/types/paths, HierarchyList.parents (ids renumbered by first appearance), whether "
-    "any case was ever registered, and the reference automaton's stack all agree; accepted node names are excluded "
-    "because every node line has a name unique to its position, so no later line can address an earlier node",
+    "E1 is unpruned; the reported number of states is the number of distinct pairs (BranchingList.state with all "
+    "fields of the open Branch/Case records, HierarchyList.parents, ids renumbered by first appearance; reference "
+    "stack) - a statistic only",
     "the parser object is created as DIP(source=(name, line)) with that source registered by hand, exactly as the "
     "library does for nested files; this only avoids the call-stack inspection used for source names",
     "unit tables are not touched by these programs (integers without units); a cheap size test after every case "
@@ -223,7 +227,6 @@ def _run_e2(desc, sh):
             sh.evaluations += 1
             if w.nblocks and w.probe_in_or_after_block:
                 sh.nontrivial += 1
-            sh.max_depth = max(sh.max_depth, 0)
             if rec:
                 sh.fail(rec)
             if w.nblocks >= 2 and w.skipped_lines and len(w.lines) == n and len(sh.samples) < 1 and n >= 5:
@@ -358,19 +361,23 @@ def finish(total, tier, seed):
                 bounds=dict(e2_full_alphabet_max_lines=b["full"], e2_static_alphabet_max_lines=b["static"],
                             block_nesting=BD, clauses_per_block=G.MAXCL, conditions_full=list(G.FULL[0]),
                             e1_alphabet=len(G.FLAT_ALPHABET), e1_depth=b["d"]),
-                deviation_bound_completed=b["d"], caps_hit=[], window="none (every tier enumerates its whole bound)")
+                deviation_bound_completed="n/a: no fault dimension, every sequence up to the depth bound is executed",
+                caps_hit=[], window="none (every tier enumerates its whole bound)")
 
 
 MANIFEST = dict(
-    text="Bounded-exhaustive check of clause selection on the real DIP.parse(): every well-formed block-structured "
-         "program (definitions, modifications, property lines, groups, @case/@else/@end blocks nested up to 3 deep, "
-         "up to 3 clauses per block, closed by @end or by indentation incl. several levels at once, every truth "
-         "assignment incl. conditions that depend on earlier clauses) with <= 5 lines in the full alphabet and 6 "
-         "lines in the static alphabet (thorough: 6 and 7) is compared with a reference semantics interpreting the "
-         "generator's AST; plus explicit-state search over all flat sequences of {node,@case T,@case F,@else,@end} x "
-         "indent {0,1,2} up to depth 4 unpruned and 6 pruned (thorough 5 and 8) for misplaced @else/@end.",
-    note="Trusted: the generator/reference in mc/refmodels/dip_gen_b.py (AST interpreter, never parses DIP text). "
-         "Not covered: @case after @else, misplaced keywords inside unselected clauses, compact clause names, "
-         "programs beyond the line/nesting bounds (small-scope hypothesis).",
-    technique="bounded exhaustive program enumeration vs reference interpreter + explicit-state BFS on the real parser",
+    text="Bounded-exhaustive check of clause selection on the real DIP.parse(). E2: every well-formed block-structured "
+         "program (definitions, reference-valued definitions, modifications, property lines, groups in both name "
+         "orders, @case/@else/@end blocks nested up to 3 deep with up to 3 clauses, closed by @end or by indentation "
+         "incl. several levels at once, empty clauses, every truth assignment incl. conditions that depend on earlier "
+         "clauses) with <= 5 lines in the full alphabet and 6 lines in the static alphabet (thorough: 6 and 7) is "
+         "compared (exact env.data() and tag query) with a reference interpreting the generator's AST. E1: every flat "
+         "sequence over {node,@case true,@case false,@else,@end} x indent {0,1,2} up to depth 5 (thorough 6), unpruned, "
+         "is executed and compared with a reference automaton: well-formed -> same lines in effect, misplaced "
+         "@else/@end (no open block at that indentation, second @else, after @end) -> parse() must raise.",
+    note="Trusted: generator, AST interpreter and indentation automaton in mc/refmodels/dip_gen_b.py (they never parse "
+         "DIP text and are cross-checked against each other on every program). Not covered: @case after @else, "
+         "misplaced keywords inside unselected clauses, compact clause names (group.@case), programs beyond the "
+         "line/nesting/depth bounds (small-scope hypothesis).",
+    technique="bounded exhaustive program enumeration vs reference interpreter + explicit-state search on the real parser",
 )
